@@ -49,6 +49,10 @@ impl<PN: PropertyName, VN: VariantName> Schema<PN, VN> {
         let mut variants_map = HashMap::new();
         for (name, variant) in self.variants {
             variants_layout.push(variant.finalize(Some(name.as_str())));
+            assert!(
+                variants_layout.len() <= u8::MAX as usize,
+                "An entry cannot have more than 255 variants"
+            );
             variants_map.insert(name, (variants_layout.len() as u8 - 1).into());
         }
         let entry_size = if variants_layout.is_empty() {
